@@ -1,8 +1,16 @@
-"""C16 — queasars/minimum_eigensolvers/evqe/evolutionary_algorithm/individual.py against coq/theories/Evqe/Genome.v.
+"""C16 — queasars/minimum_eigensolvers/evqe/evolutionary_algorithm/individual.py, and the structural part of
+quantum_circuit/circuit_layer.py and quantum_circuit/quantum_gate.py (function entries with `source=`), against
+coq/theories/Evqe/Genome.v.
 
-Data representation (trusted, the one of the hand-written model): an EVQECircuitLayer is the record `layer`
-(`n_qubits` = l_qubits, `n_parameters` = layer_n_parameters, i.e. the sum of the gates' parameter counts the layer
-caches in its __post_init__; `layer.is_valid()` = the model's layer_is_valid, which can raise IndexError); an
+Data representation (trusted, the one of the hand-written model): a gate object is a value of the inductive `gate`,
+its class is the constructor (IdentityGate = GId, RotationGate = GRot, ControlGate = GCtrl, ControlledRotationGate =
+GCRot; isinstance / the class-specific fields through C16Aux.v's is_control / gate_control_qubit_index / ...); an
+EVQECircuitLayer is the record `layer` (`n_qubits` = l_qubits, `gates` = l_gates).  NOT on trust any more:
+`layer.n_parameters`, `layer.n_controlled_gates` and `layer.is_valid()` are TRANSLATED (the properties return the
+private attributes `_n_parameters` / `_n_controlled_gates`, read as layer_n_parameters / layer_n_controlled, and the
+translated EVQECircuitLayer.__post_init__ is proved to store exactly these: link_Layer_post_init; is_valid is proved
+equal to the model's layer_is_valid, IndexError included); `gate.n_parameters()` dispatches to the four translated
+static methods.  An
 EVQEIndividual is the record `individual V` (n_qubits / layers / parameter_values = i_qubits / i_layers / i_values).
 Parameter values are an opaque type V: every generated function takes `V : Type` as its first argument (the code only
 moves the values around).  `EVQEIndividual(n_qubits=, layers=, parameter_values=)` is the model's `make_individual`
@@ -23,6 +31,38 @@ STATE = dict(var="c", ty=CACHE, ctor="mkIndCache", fields=[("_layer_parameter_in
 POLY = [("V", TYPE)]
 EXC = "EVQEIndividualException"
 
+# ---------------------------------------------------------------- gates and layers (two more source files)
+GSRC = "queasars/minimum_eigensolvers/evqe/quantum_circuit/quantum_gate.py"
+LSRC = "queasars/minimum_eigensolvers/evqe/quantum_circuit/circuit_layer.py"
+Gate = Nom("EVQEGate", "gate", "gate_eqb")
+LCACHE = Nom("layer_cache", "layer_cache")
+LSTATE = dict(var="lc", ty=LCACHE, ctor="mkLayerCache",
+              fields=[("_n_parameters", "lc_n_parameters", Z), ("_n_controlled_gates", "lc_n_controlled", Z)])
+LSELF = ("self", "self", Layer)
+# gate.n_parameters() on a value of the abstract class EVQEGate: dynamic dispatch on the object's class = the
+# constructor of `gate` that represents it, to the TRANSLATED static method of that class (spec idiom dispatch-by-constructor)
+GATE_DISPATCH = ("match {{0}} with GId _ => gen_IdentityGate_{m} | GRot _ => gen_RotationGate_{m} "
+                 "| GCtrl _ _ => gen_ControlGate_{m} | GCRot _ _ => gen_ControlledRotationGate_{m} end")
+GATE_CLASSES = ["IdentityGate", "RotationGate", "ControlGate", "ControlledRotationGate"]
+GATE_ATTRS = {
+    ("EVQEGate", "qubit_index"): ("gate_qubit {0}", Z),
+    # fields that only some gate classes have: reading them on another class is an AttributeError
+    ("EVQEGate", "control_qubit_index"): ("gate_control_qubit_index {0}", Z, "AttributeError"),
+    ("EVQEGate", "controlled_qubit_index"): ("gate_controlled_qubit_index {0}", Z, "AttributeError"),
+}
+GATE_ISINSTANCE = {
+    ("EVQEGate", "ControlledGate"): "is_controlled {0}",  # its only concrete subclass is ControlledRotationGate
+    ("EVQEGate", "ControlledRotationGate"): "is_controlled {0}",
+    ("EVQEGate", "ControlGate"): "is_control {0}",
+}
+GATE_FUNCTIONS = [dict(py=f"{c}.n_parameters", source=GSRC, gen=f"{c}_n_parameters", params=[], returns=Z) for c in GATE_CLASSES]
+LAYER_FUNCTIONS = [
+    dict(py="EVQECircuitLayer.is_valid", source=LSRC, gen="Layer_is_valid", params=[LSELF], returns=BOOL),
+    dict(py="EVQECircuitLayer.__post_init__", source=LSRC, gen="Layer_post_init", kind="init", params=[LSELF], state=LSTATE),
+    dict(py="EVQECircuitLayer.n_parameters", source=LSRC, gen="Layer_n_parameters", property=True, params=[LSELF], returns=Z),
+    dict(py="EVQECircuitLayer.n_controlled_gates", source=LSRC, gen="Layer_n_controlled_gates", property=True, params=[LSELF], returns=Z),
+]
+
 SPEC = dict(
     id="C16",
     source="queasars/minimum_eigensolvers/evqe/evolutionary_algorithm/individual.py",
@@ -35,17 +75,25 @@ SPEC = dict(
     preamble="",
     reserved=["layer", "individual", "gate", "layers"],
     attrs={
+        **GATE_ATTRS,
         ("EVQECircuitLayer", "n_qubits"): ("l_qubits {0}", Z),
-        ("EVQECircuitLayer", "n_parameters"): ("layer_n_parameters {0}", Z),
-        ("EVQECircuitLayer", "n_controlled_gates"): ("layer_n_controlled {0}", Z),
+        ("EVQECircuitLayer", "gates"): ("l_gates {0}", List(Gate)),
+        # the two private attributes written by EVQECircuitLayer.__post_init__ (see link_Layer_post_init); the public
+        # properties n_parameters / n_controlled_gates and is_valid() are TRANSLATED functions of this spec
+        ("EVQECircuitLayer", "_n_parameters"): ("layer_n_parameters {0}", Z),
+        ("EVQECircuitLayer", "_n_controlled_gates"): ("layer_n_controlled {0}", Z),
         ("EVQEIndividual", "n_qubits"): ("i_qubits {0}", Z),
         ("EVQEIndividual", "layers"): ("i_layers {0}", List(Layer)),
         ("EVQEIndividual", "parameter_values"): ("i_values {0}", List(Val)),
         # the private attribute written by __post_init__ (see link_Individual_post_init)
         ("EVQEIndividual", "_layer_parameter_indices"): ("lpi_of (i_layers {0})", LPI),
     },
+    isinstance=dict(GATE_ISINSTANCE),
+    idioms={"dispatch-by-constructor": "a method call on a value of the abstract class EVQEGate (gate.n_parameters()) is the TRANSLATED method of the "
+                                       "object's concrete class, selected by the constructor of `gate` that represents that class "
+                                       "(IdentityGate = GId, RotationGate = GRot, ControlGate = GCtrl, ControlledRotationGate = GCRot)"},
     methods={
-        ("EVQECircuitLayer", "is_valid"): dict(code="layer_is_valid {0}", ty=BOOL, params=[], partial=True),
+        ("EVQEGate", "n_parameters"): dict(code=GATE_DISPATCH.format(m="n_parameters"), ty=Z, params=[], idiom="dispatch-by-constructor"),
     },
     funcs={
         "EVQEIndividual": dict(code="make_individual {n_qubits} {layers} {parameter_values}", ty=Ind,
@@ -54,8 +102,10 @@ SPEC = dict(
         "MappingProxyType": dict(code="{d}", ty=LPI, params=[("d", LPI)]),
         # math.ceil on a float read as an exact rational (float-as-Q)
         "ceil": dict(code="Qceiling {x}", ty=Z, params=[("x", Q)]),
+        # int(x) on an int (EVQECircuitLayer.__post_init__: int(sum(...)) of ints)
+        "int": dict(code="{x}", ty=Z, params=[("x", Z)]),
     },
-    functions=[
+    functions=GATE_FUNCTIONS + LAYER_FUNCTIONS + [
         dict(py="EVQEIndividual.is_valid", gen="Individual_is_valid", extra_params=POLY, params=[("self", "self", Ind)], returns=BOOL),
         dict(py="EVQEIndividual.__post_init__", gen="Individual_post_init", kind="init", extra_params=POLY, params=[("self", "self", Ind)],
              state=STATE, locals={"layer_parameter_indices": LPI}),
